@@ -18,7 +18,9 @@ KF = {  # spec slug -> (KNOWN_FINDINGS signature, text the failure message must 
     "C18_restart_panics_one_uncommitted_block": ("restart-panics-one-accepted-block-uncommitted", "nil pointer"),
     "C18_restart_refused_uncommitted_blocks": ("restart-refused-two-or-more-accepted-blocks-uncommitted",
                                                "cannot extract latest output block from invalid state"),
+    "C18_committed_block_not_reannounced": ("committed-block-not-reannounced-after-restart", ""),
 }
+SNOW_FILES = ["verif_snowvm_test.go", "verif_snowcrash_test.go"]
 
 
 def sig(f):
@@ -82,20 +84,47 @@ def validate(ctx, files, label):
 def run(ctx):
     if ctx.only is None:
         vlib.tlc_mc(ctx, "SnowVMRestart_MC", ctx.pick("SnowVMRestart_MC_quick.cfg", "SnowVMRestart_MC.cfg"))
-        r = vlib.tlc_mc(ctx, "SnowVMRestart_MC", "SnowVMRestart_MC_nokf.cfg", label="nokf", expect_violation=True)
-        if not (r["violated"] and "RestartSucceeds" in r["violated"]):
-            raise vlib.Infra("sensitivity: the as-coded restart model no longer violates RestartSucceeds outside the KF allowance")
-        ctx.cov["design_step_as_coded_restart_violates_RestartSucceeds"] = True
+        vlib.tlc_mc(ctx, "SnowVMRestart_MC", "SnowVMRestart_MC_snow.cfg", label="snow")
         if not ctx.quick:
+            r = vlib.tlc_mc(ctx, "SnowVMRestart_MC", "SnowVMRestart_MC_nokf.cfg", label="nokf", expect_violation=True)
+            if not (r["violated"] and "RestartSucceeds" in r["violated"]):
+                raise vlib.Infra("sensitivity: the as-coded restart model no longer violates RestartSucceeds outside the KF allowance")
+            ctx.cov["design_step_as_coded_restart_violates_RestartSucceeds"] = True
             vlib.tlc_mc(ctx, "SnowVMRestart_MC", "SnowVMRestart_MC_intended.cfg", label="intended")
-    scenarios = ctx.pick(20, 90)
+            r = vlib.tlc_mc(ctx, "SnowVMRestart_MC", "SnowVMRestart_MC_snow_nokf.cfg", label="snow-nokf", expect_violation=True)
+            if not (r["violated"] and "AtLeastOnceInOrder" in r["violated"]):
+                raise vlib.Infra("sensitivity: the snow-level restart model no longer violates AtLeastOnceInOrder without the KF allowance")
+    run_vm = ctx.only is None or ctx.only < 1000
+    run_snow = ctx.only is None or ctx.only >= 1000
+    outdir = os.path.join(ctx.work, "out")
+    files = []
+    stats = {}
+    if run_snow:
+        # snow-level family: driver-owned durable image, crash = snapshot between any two durable writes
+        snow_n = ctx.pick(40, 600)
+        rc, out = vlib.go_driver(ctx, "snow", "^TestVerifSnowCrashRecord$", files=SNOW_FILES, timeout=900,
+                                 env={"VERIF_SCENARIOS": snow_n, "VERIF_BLOCKS": ctx.pick(4, 6)})
+        if rc != 0:
+            raise vlib.Infra("snow-level crash driver failed:\n" + out[-3000:])
+        sfiles = vlib.scenario_files(ctx, "sn")
+        if len(sfiles) < (1 if ctx.only is not None else snow_n):
+            raise vlib.Infra("snow-level driver wrote %d of %d scenarios" % (len(sfiles), snow_n))
+        sstats = json.load(open(os.path.join(outdir, "stats_snow.json")))
+        for k, v in sstats.items():
+            ctx.add("snowlevel_" + k, v)
+        if ctx.only is None and not sstats.get("crash_with_uncommitted_blocks"):
+            raise vlib.Infra("vacuous run: no snow-level crash with accepted-but-uncommitted blocks")
+        files += sfiles
+    scenarios = ctx.pick(14, 90)
     for attempt in (1, 2):
+        if not run_vm:
+            rc = 0
+            break
         # the reference chain is built with vmtest helpers that give the builder 1 s to react: on an overloaded machine the
         # harness itself can time out, so one retry before giving up (a harness failure is never a verdict)
-        outdir = os.path.join(ctx.work, "out")
         if os.path.isdir(outdir):
             for f in os.listdir(outdir):
-                if f.endswith(".ndjson") or f == "stats.json":
+                if (f.endswith(".ndjson") and f.startswith("sc")) or f == "stats.json":
                     os.remove(os.path.join(outdir, f))
         rc, out = vlib.go_driver(ctx, PKG, "^TestVerifCrashRecord$", files=FILES, timeout=1500,
                                  env={"VERIF_SCENARIOS": scenarios, "VERIF_BLOCKS": ctx.pick(5, 8), "VERIF_PAR": 8})
@@ -104,14 +133,17 @@ def run(ctx):
         vlib.log("crash driver attempt %d failed (harness):\n%s" % (attempt, out[-1500:]))
     if rc != 0:
         raise vlib.Infra("crash driver failed:\n" + out[-3000:])
-    files = vlib.scenario_files(ctx, "sc")
-    if len(files) < (1 if ctx.only is not None else scenarios):
-        raise vlib.Infra("driver wrote %d of %d scenarios" % (len(files), scenarios))
-    stats = json.load(open(os.path.join(ctx.work, "out", "stats.json")))
-    for k, v in stats.items():
-        ctx.add("driver_" + k, v)
-    if ctx.only is None and (not stats.get("ev_crash") or stats.get("ev_start", 0) <= stats.get("ev_reset", 0)):
-        raise vlib.Infra("vacuous run: no crash/restart recorded")
+    if run_vm:
+        vfiles = vlib.scenario_files(ctx, "sc")
+        if len(vfiles) < (1 if ctx.only is not None else scenarios):
+            raise vlib.Infra("driver wrote %d of %d scenarios" % (len(vfiles), scenarios))
+        files += vfiles
+    if run_vm:
+        stats = json.load(open(os.path.join(outdir, "stats.json")))
+        for k, v in stats.items():
+            ctx.add("driver_" + k, v)
+        if ctx.only is None and (not stats.get("ev_crash") or stats.get("ev_start", 0) <= stats.get("ev_reset", 0)):
+            raise vlib.Infra("vacuous run: no crash/restart recorded")
     shapes = set()
     for f in files:
         lines = vlib.read_ndjson(f)
@@ -141,8 +173,12 @@ def run(ctx):
     ctx.cov["rule"] = ("tv: crash matrix over a chain of N fee-paying blocks: kill (os.Exit, no Shutdown/Close) with the accepter idle "
                        "after m blocks, or parked inside the notification of block k - before (state of k committed, subscriber not "
                        "told) or after the subscriber saw k - with 0..d further blocks accepted and queued; restart on the same "
-                       "directory, continue to N, clean stop; seeded double-crash runs; distinct = distinct phase lists containing a crash")
+                       "directory, continue to N, clean stop; seeded double-crash runs. snow level: real snow.VM over a driver-owned durable "
+                       "image (chainindex on memdb, committed state height, subscriber log) whose index write / state commit / "
+                       "notification are gates released by a seeded scheduler; crash = snapshot of the image between any two durable "
+                       "writes, restart from the snapshot; distinct = distinct phase lists containing a crash")
     ctx.assumptions += ["crash = process death (pebble writes are synchronous): no torn writes / lost fsyncs",
+                        "snow-level family: the Chain commits state in AcceptBlock and restarts from its committed state, as vm.VM does",
                         "crash points inside vm.AcceptBlock (between the execution-result write, validityWindow.Accept and CommitToDB) "
                         "are covered by the design step only; on disk they differ from the covered points only in resH = stateH + 1",
                         "single chain (no forks), blocks are valid"]
